@@ -7,7 +7,7 @@ import json
 import math
 import re
 
-from .. import core, diag, hooks, mv as MV
+from .. import core, diag, hooks, lang, mv as MV
 
 ID = "C15"
 READY = True
@@ -321,6 +321,58 @@ def special_encodings(acc, rnd, n):
             acc.violation(f"encoder {kind} {wrap} {'raises' if str(got).startswith('raised') else 'wrong-text'}", f"CELJSONEncoder of a {kind} ({wrap}) gave {got!r:.60}, expected {want!r:.60}", {"doc": json.dumps({"special": kind, "want": want})})
 
 
+def offset_timestamps(acc, rnd, n):
+    """Timestamps that carry a UTC offset (made from text with an offset, from an aware datetime, or by a CEL expression): the encoder's
+    text must be RFC 3339 and denote the SAME INSTANT, whatever offset it is written in."""
+    import datetime
+
+    import celpy.adapter as ad
+
+    c = core.celpy()
+    ct = c.celtypes
+    lo, hi = MV.ts_boundaries()[0] + 15 * 3600 * 10**6, MV.ts_boundaries()[-1] - 15 * 3600 * 10**6
+    prog = None
+    for j in range(n):
+        acc.hook("special-encodings")
+        acc.hook("offset-timestamp-encoding")
+        acc.evaluations += 1
+        us = min(max(MV.rand_ts(rnd, whole_seconds=True), lo), hi)
+        us -= us % 10**6  # whole seconds only (string(timestamp) drops the fraction; sub-second text is not asserted here)
+        off = rnd.choice([330, -480, 60, -1, 840, -840, 345, -210]) if j % 3 else MV.rand_offset(rnd)
+        text = MV.ts_text(us, off)
+        how = ["text", "datetime", "cel"][j % 3]
+        try:
+            if how == "text":
+                v = ct.TimestampType(text)
+            elif how == "datetime":
+                v = ct.TimestampType((datetime.datetime(1970, 1, 1, tzinfo=datetime.timezone.utc) + datetime.timedelta(microseconds=us)).astimezone(datetime.timezone(datetime.timedelta(minutes=off))))
+            else:
+                if prog is None:
+                    env = c.Environment()
+                    prog = env.program(env.compile("{'when': timestamp(t)}"))
+                v = prog.evaluate({"t": ct.StringType(text)})
+        except Exception as ex:
+            acc.cell("special", "timestamp-offset", how, "construction-failed")
+            continue
+        acc.nt(["timestamp-offset", how, text])
+        try:
+            got = json.loads(json.dumps(v, cls=ad.CELJSONEncoder))
+            if how == "cel":
+                got = got["when"]
+            ok = isinstance(got, str) and lang.parse_rfc3339(got) == us
+        except (lang.Unspec, lang.ModelErr):
+            ok = False
+        except Exception as ex:
+            got, ok = "raised " + type(ex).__name__, False
+        acc.cell("special", "timestamp-offset", how, "off%+d" % (off // 60), "ok" if ok else "differ")
+        if not ok:
+            acc.violation(
+                f"encoder timestamp carrying-offset made-from-{how} {'raises' if str(got).startswith('raised') else 'other-instant-or-not-rfc3339'}",
+                f"CELJSONEncoder of the timestamp {text} (made from {how}) gave {got!r:.60}, which is not RFC 3339 text of that instant",
+                {"doc": json.dumps({"special": "timestamp-offset", "want": text})},
+            )
+
+
 def deep_doc(rnd, depth):
     """A narrow document of the given nesting depth with every scalar kind at the bottom and along the way."""
     leaf = [True, False, None, 1, 0, -0.0, 1.5, "s", MV.INT_MAX]
@@ -393,6 +445,7 @@ def run(ctx):
         if j % 499 == 0:
             acc.sample({"document": json.dumps(doc)[:300]})
     special_encodings(acc, rnd, ctx.scale(1600, 40000))
+    offset_timestamps(acc, rnd, ctx.scale(1200, 30000))
 
 
 def replay(case):
